@@ -56,6 +56,19 @@ CHECKS = {
              "inside one step and of the redistribution loop is observed (time-outs), not proved (C14 owns the loop).",
         technique="Lean 4 proof over an executable state-machine model tied to translator-generated source text + differential correspondence in sandboxed processes",
         design="§6 C10"),
+    "C11": dict(
+        text="PARTIAL BY NATURE. Lean theorems on the engine model: flat2/flat3 index bounds, the loop condition of SampleOnTSample "
+             "never reads t_samples out of range given the regenerated conjunct order, the diffusion event selected by Gillespie and "
+             "every tau-leap Poisson call belong to a slot with a neighbour, std::poisson_distribution is only constructed with a positive "
+             "mean (regenerated guards, count of constructions), the allocation state machine never double-frees or uses a freed object "
+             "(C10's invariant), and every vector[index] of the engine sources (162 occurrences, regenerated) has a registered bounded "
+             "index form. Oracle = the property's observation point: the working tree's engine compiled with -D_GLIBCXX_ASSERTIONS "
+             "and with ASan+UBSan, driven through the Python API over degenerate shapes, all policies / modes, coarse steps, repeated "
+             "output fetches, double finalize, calls on a released engine; plain and hardened builds must agree bitwise.",
+        note="Lean kernel + {propext, Classical.choice, Quot.sound}; translator; the compiled program's memory behaviour is observed on "
+             "sampled inputs with sanitizers (no uninitialised-read detection), not proved; int overflow excluded by the size assumption.",
+        technique="Lean 4 proof of index/guard logic over an executable model + subscript registry from the translator + sanitizer-instrumented differential runs",
+        design="§6 C11"),
 }
 
 ALL = ["C%02d" % i for i in range(1, 21)]
